@@ -39,7 +39,7 @@ FACTOR = ('seg', 'ele', 'sub', 'eol')
 NAMES = {'': 'none', '\n': 'LF', '\r\n': 'CRLF', '\r': 'CR', '\x1c': 'FS', '\x1d': 'GS', '\\': 'backslash'}
 ENVELOPE = ('ISA', 'GS', 'ST', 'SE', 'GE', 'IEA', 'TA1')
 MUT_OPS = ('delete', 'duplicate', 'swap', 'retag-ZZZ', 'extra-elements', 'extra-components')      # from corpus.mutations
-OWN_OPS = ('trailing-element', 'trailing-component', 'empty-piece')                                            # made here, on the matrix
+OWN_OPS = ('trailing-element', 'trailing-component', 'lone-separator', 'empty-piece')                                            # made here, on the matrix
 CHARSET_B_MAPS = ('834.4010.X095.A1.xml', '837.4010.X098.A1.xml', '835.5010.X221.A1.xml', '999.5010.xml')
 
 
@@ -291,6 +291,10 @@ def mutants(text, thorough):
         # an empty component after the last one: the segment ends with a component separator
         if eles:
             yield 'trailing-component@%d:%s' % (i, sid), base[:i] + [[sid, [list(c) for c in eles[:-1]] + [list(eles[-1]) + ['']]]] + base[i + 1:]
+        # an element that consists of nothing but a component separator (two empty components), first and last position
+        if eles:
+            for k in sorted(set([0, len(eles) - 1])):
+                yield 'lone-separator@%d:%s%02d' % (i, sid, k + 1), base[:i] + [[sid, [list(c) for c in eles[:k]] + [['', '']] + [list(c) for c in eles[k + 1:]]]] + base[i + 1:]
         # an empty piece (a doubled terminator) after the segment: not a segment in any encoding, with or without line breaks
         yield 'empty-piece@%d:%s' % (i, sid), base[:i + 1] + [['', []]] + base[i + 1:]
 
